@@ -452,9 +452,11 @@ void oracle_c09_failover(World &w, const History &h)
           }
         if (plain > 1) w.violate("C09:probe:retried", fmt("probe query id %u was transmitted %d times (not counting protocol-mandated resends)", t.q.id, plain));
       }
-      if (!servers_changed && t.ref_fail[t.server] == 0) w.violate("C09:probe:to-healthy-server", fmt("probe tx#%d went to server %d which has no failures", t.id, t.server));
+      // (server-list edits: the reference forgets removed servers and keeps the health and last-failure time of
+      //  retained ones, so both rules apply across edits as well)
+      if (t.ref_fail[t.server] == 0) w.violate("C09:probe:to-healthy-server", fmt("probe tx#%d went to server %d which has no failures", t.id, t.server));
       if (w.cfg->retry_chance == 0) w.violate("C09:probe:sent-although-disabled", fmt("probe tx#%d sent although the retry chance is 0", t.id));
-      if (!servers_changed && t.t_us < t.last_fail_us[t.server] + (int64_t)w.cfg->retry_delay * 1000)
+      if (t.t_us < t.last_fail_us[t.server] + (int64_t)w.cfg->retry_delay * 1000)
         w.violate("C09:probe:before-retry-delay", fmt("probe tx#%d to server %d sent %lld ms after its last failure; retry delay is %d ms", t.id, t.server, (long long)((t.t_us - t.last_fail_us[t.server]) / 1000), w.cfg->retry_delay));
       bool same_question = false;
       for (auto &u : w.txs)
